@@ -116,6 +116,8 @@ class SymWorld(object):
         for p in parts:
             if isinstance(p, str):
                 out.extend(p)
+            elif isinstance(p, strings.SymStr):
+                out.extend(p.e)
             else:
                 out.append(p)
         return strings.SymStr(out)
